@@ -159,6 +159,11 @@ func (c *immuClient) VerifyRow(ctx context.Context, row *schema.Row, table strin
 		return err
 	}
 
+	err = vEntry.Validate()
+	if err != nil {
+		return err
+	}
+
 	if len(vEntry.PKIDs) < len(pkVals) {
 		return ErrIllegalArguments
 	}
